@@ -30,7 +30,8 @@ RULE = ("(a) seeded nestings (depth <= 6, <= 40 nodes) of the three context mana
         "programs, programs with 1-3 planted faults (parse/compile/evaluation time), programs that crash the assembler (RecursionError while parsing "
         "and while evaluating, TypeError in the string-escape parser), assemblies interrupted by an exception injected at a random function call, "
         "and assemblies cut by the real watchdog, followed by a probe (valid, faulty, multi-file) compared with a fresh process; "
-        "(c) every probe under PYTHONHASHSEED 0..15 and a random seed. non-trivial = distinct (history kinds, probe) with >= 1 non-valid item, "
+        "(c) every probe (incl. programs with groups of 2-5 equal-valued labels / constants under random names) under PYTHONHASHSEED 0..15 and a random seed, "
+        "comparing outcome, base, bytes, diagnostics and the listing text; and the command line with --lst -o under the same seeds, comparing every file written. non-trivial = distinct (history kinds, probe) with >= 1 non-valid item, "
         "or a distinct nesting that raises or returns through >= 1 context manager")
 LEVEL_TEXT = ("Coq theorems over the __enter__/__exit__ steps regenerated from deferred.py / reports.py on every run: every nesting of the three context "
               "managers, with bodies that finish, return or raise anything anywhere (including __enter__ raising on a cycle and a nested handler's "
@@ -277,7 +278,8 @@ SLOW = [("s.mac", ".repeat 2 {" * 22 + " nop " + "}" * 22 + "\n")]
 def canonical(r):
     return {"outcome": r["outcome"], "base": r.get("base"), "code": r.get("code"),
             "diags": [[d[0], d[1], [s[:3] for s in d[2]]] for d in r["diags"]],
-            "crash": ({"exc": r["crash"].get("exc"), "frame": r["crash"].get("frame")} if r.get("crash") else None)}
+            "crash": ({"exc": r["crash"].get("exc"), "frame": r["crash"].get("frame")} if r.get("crash") else None),
+            "listing": r.get("listing"), "listing_crash": r.get("listing_crash")}
 
 
 def state_now():
@@ -385,7 +387,7 @@ def run_history(job):
             impl.reset_global_state()
         log.append(entry)
     try:
-        res = canonical(impl.assemble([tuple(f) for f in probe["files"]], fs=probe.get("fs"), reset=False))
+        res = canonical(impl.assemble([tuple(f) for f in probe["files"]], fs=probe.get("fs"), reset=False, want_listing=True))
     except BaseException as ex:
         res = {"outcome": "escaped:" + type(ex).__name__}
     fp1 = fingerprint()
@@ -395,7 +397,7 @@ def run_history(job):
 
 FRESH_SNIPPET = ("import sys, json; sys.path.insert(0, %r); import impl; from props import c18; "
                  "job = json.load(sys.stdin); "
-                 "print(json.dumps(c18.canonical(impl.assemble([tuple(f) for f in job['files']], fs=job.get('fs')))))") % os.path.join(C.ROOT, "tools")
+                 "print(json.dumps(c18.canonical(impl.assemble([tuple(f) for f in job['files']], fs=job.get('fs'), want_listing=True))))") % os.path.join(C.ROOT, "tools")
 
 
 def fresh(probe, hashseed="0"):
@@ -416,11 +418,38 @@ def gen_program(rng, tag, faults=0, warns=0):
     return "\n".join(lines) + "\n", kinds
 
 
-PROBE_KINDS = ["valid", "faulty", "two-files", "include+forward", "shared-names"]
+def rand_name(rng, used):
+    while True:
+        n = rng.choice("abcdefghijklmnopqstuvwxyz") + "".join(rng.choice("abcdefghijklmnopqrstuvwxyz0123456789_") for _ in range(rng.randint(1, 7)))
+        if n not in used and n not in ("sp", "pc") and not (n[0] == "r" and n[1:].isdigit()) and not (n[:2] == "ac" and n[2:].isdigit()):
+            used.add(n)
+            return n
+
+
+def equal_values_program(rng):
+    """Groups of 2-5 labels at the same address and of 2-5 constants with the same value, under names whose
+    hash order varies: the order in which equal-valued symbols are listed must not depend on the hash seed."""
+    used = set()
+    lines = []
+    for _ in range(rng.randint(2, 4)):
+        if rng.random() < 0.6:
+            lines.append(" ".join(rand_name(rng, used) + ":" for _ in range(rng.randint(2, 5))))
+            lines.append(rng.choice(["nop", "mov #1, r0", ".word 5, 6", "clr r3"]))
+        else:
+            v = rng.choice(["5", "1000", "-1", "0", "177777"])
+            for _ in range(rng.randint(2, 5)):
+                lines.append(f"{rand_name(rng, used)} = {v}")
+        lines.append("inc r1")
+    return "\n".join(lines) + "\n"
+
+
+PROBE_KINDS = ["equal-values", "valid", "faulty", "two-files", "include+forward", "shared-names", "equal-values"]
 
 
 def gen_probe(rng, i):
     kind = PROBE_KINDS[i] if i < len(PROBE_KINDS) else rng.choice(PROBE_KINDS + ["valid", "faulty"])
+    if kind == "equal-values":
+        return {"files": [["probe.mac", equal_values_program(rng)]], "what": "equal-values"}
     if kind == "valid":
         text, _ = gen_program(rng, "p")
         return {"files": [["probe.mac", text]], "what": "valid"}
@@ -571,10 +600,49 @@ def history_part(rep, rng, nprobes, nhist_per_probe, maxlen, seeds):
                     "probe_result_equals_fresh": "error" not in r and r["probe_result"] == ref[j["pi"]]})
 
 
+def cli_hash_part(rep, rng, nprobes, seeds):
+    """The command line itself (`--lst -o out.bin`) under every hash seed: status, files and bytes (image and listing) must be identical."""
+    progs = []
+    for i in range(nprobes):
+        if i % 3 != 2:
+            text = equal_values_program(rng)
+        else:
+            text, _ = gen_program(rng, "c", warns=1)
+            text += equal_values_program(rng)
+        progs.append(text)
+
+    def one(i):
+        d = os.path.join(G.SCRATCH, "hash", f"h{i}")      # the same absolute path for every seed: the listing names the source file
+        return [G.run_cli(d, {"a.mac": progs[i]}, False, [], ["--report-format", "bare", "--lst", "-o", "out.bin", "a.mac"], hashseed=s) for s in seeds]
+    try:
+        with ThreadPoolExecutor(max_workers=C.NPROC) as ex:
+            allruns = list(ex.map(one, range(nprobes)))
+    finally:
+        G.cleanup()
+    for i, runs in enumerate(allruns):
+        ref = runs[0]
+        rep.nontrivial(("cli-hash", progs[i]))
+        for s, r in zip(seeds, runs):
+            rep.add_eval()
+            rep.count("cli-hashseed-run:" + ("ok" if r["status"] == 0 else "status%d" % r["status"]))
+            if r["timeout"]:
+                rep.disagree("command-line run timed out", {"source": progs[i], "hashseed": s})
+                continue
+            if (r["status"], r["changed"], r["contents"]) != (ref["status"], ref["changed"], ref["contents"]):
+                diff = [k for k in set(r["contents"]) | set(ref["contents"]) if r["contents"].get(k) != ref["contents"].get(k)]
+                rep.violate(f"cli-hashseed:{','.join(sorted(diff)) or 'status'}", f"python -m pdpy11 --lst -o out.bin writes different files/bytes under PYTHONHASHSEED={seeds[0]} and {s}: {sorted(diff)}",
+                            {"cli_source": progs[i], "argv": ["--report-format", "bare", "--lst", "-o", "out.bin", "a.mac"], "hashseeds": [seeds[0], s]},
+                            expected={"status": ref["status"], "files": ref["contents"]}, observed={"status": r["status"], "files": r["contents"]},
+                            replay="props.c07.run_cli(dir, {'a.mac': cli_source}, False, [], argv, hashseed=..)")
+                break
+    rep.exhaustive_parts.append(f"{nprobes} programs with groups of equal-valued symbols through the command line with --lst -o under PYTHONHASHSEED in {list(seeds)}")
+
+
 def explore(rep, br, tier, seed):
     rng = random.Random(seed)
     nest_part(rep, rng, 600 if tier == "quick" else 12000)
     seeds = [str(s) for s in range(16)] + ["random"]
+    cli_hash_part(rep, rng, 6 if tier == "quick" else 40, seeds)
     if tier == "quick":
         history_part(rep, rng, nprobes=10, nhist_per_probe=6, maxlen=50, seeds=seeds)
     else:
@@ -598,7 +666,9 @@ def search(rep, br, tier, seed):
             rep.violate("nest:" + json.dumps(p)[:120], "module-level state is not restored after a nesting of the context managers",
                         {"nesting": p, "start_depth": 0, "n_ids": max(hcount[0], 6)}, observed=o, replay="props.c18.run_nest(nesting, start_depth, n_ids)")
             break
-    history_part(rep, rng, nprobes=10, nhist_per_probe=8 if tier == "quick" else 20, maxlen=50, seeds=["0", "1"])
+    cli_hash_part(rep, rng, 8, [str(x) for x in range(8)])
+    if not rep.violations:
+        history_part(rep, rng, nprobes=10, nhist_per_probe=8 if tier == "quick" else 20, maxlen=50, seeds=["0", "1", "2", "3"])
 
 
 def replay(data):
@@ -609,6 +679,14 @@ def replay(data):
         o = run_nest(tup(inp["nesting"]), inp["start_depth"], inp["n_ids"])
         print("observed now:", o)
         return o["depth"] == inp["start_depth"] and not o["awaiting"] and not o["handlers"] and not any(o["flags"])
+    if "cli_source" in inp:
+        d = os.path.join(G.SCRATCH, "hash", "replay")
+        try:
+            a, b = (G.run_cli(d, {"a.mac": inp["cli_source"]}, False, [], inp["argv"], hashseed=s) for s in inp["hashseeds"])
+        finally:
+            G.cleanup()
+        print({"status": a["status"], "files": a["contents"]}, {"status": b["status"], "files": b["contents"]}, sep="\n")
+        return (a["status"], a["changed"], a["contents"]) == (b["status"], b["changed"], b["contents"])
     if "hashseeds" in inp:
         a, b = (fresh({"files": inp["files"], "fs": inp.get("fs")}, s) for s in inp["hashseeds"])
         print(a, b, sep="\n")
